@@ -61,7 +61,11 @@ class Rig:
         os.makedirs(RUNS, exist_ok=True)
 
     def run(self, scenario, config_toml="", args=(), signals=(), timeout=60, env_extra=None,
-            subcommand="run", keep=False, tap_fail_at=None, supervise_stop=False):
+            subcommand="run", keep=False, tap_fail_at=None, supervise_stop=False, private_binaries=(),
+            hooks=()):
+        """private_binaries: binary ids whose executable is copied into the run directory (the copy's
+        path is returned in res['private'][id]) so that a hook can tamper with it during the run.
+        hooks: list of (trigger(ctx)->bool, action(ctx)) run once from the signal thread."""
         """signals: list of (delay_seconds_after_spawn | callable(ctx)->bool trigger, signo).
         Returns dict(rc, stderr, stdout, tap, log, junit, wall, dir, t0, t_end, sent)."""
         with _lock:
@@ -87,9 +91,21 @@ class Rig:
             env["NEXTEST_VERIF_TAP_FAIL_AT"] = str(tap_fail_at)
         if env_extra:
             env.update(env_extra)
+        binmeta = os.path.join(self.meta, "binaries-metadata.json")
+        private = {}
+        if private_binaries:
+            bm = json.load(open(binmeta))
+            for bid in private_binaries:
+                src = bm["rust-binaries"][bid]["binary-path"]
+                dst = os.path.join(d, "bin-" + bid.replace("::", "-"))
+                shutil.copy2(src, dst)
+                bm["rust-binaries"][bid]["binary-path"] = dst
+                private[bid] = dst
+            binmeta = os.path.join(d, "binaries-metadata.json")
+            json.dump(bm, open(binmeta, "w"))
         cmd = [self.nextest, "nextest", subcommand,
                "--cargo-metadata", os.path.join(self.meta, "cargo-metadata.json"),
-               "--binaries-metadata", os.path.join(self.meta, "binaries-metadata.json"),
+               "--binaries-metadata", binmeta,
                "--config-file", cfg] + list(args)
         t0 = time.monotonic()
         p = subprocess.Popen(cmd, cwd=PUPPET, env=env, stdout=subprocess.PIPE, stderr=subprocess.PIPE,
@@ -98,6 +114,13 @@ class Rig:
         stops = []
 
         def deliver():
+            for trig, action in hooks:
+                deadline = time.monotonic() + timeout
+                while time.monotonic() < deadline and p.poll() is None:
+                    if trig(dict(log=logp, tap=tap, t0=t0)):
+                        action(dict(log=logp, tap=tap, t0=t0, private=private))
+                        break
+                    time.sleep(0.005)
             for when, signo in signals:
                 if callable(when):
                     deadline = time.monotonic() + timeout
@@ -132,7 +155,7 @@ class Rig:
         t_end = time.monotonic()
         res = dict(rc=p.returncode, stdout=out.decode(errors="replace"), stderr=err.decode(errors="replace"),
                    tap=read_jsonl(tap), log=read_jsonl(logp), wall=t_end - t0, dir=d, t0=t0, t_end=t_end,
-                   sent=sent, timed_out=timed_out, cmd=cmd)
+                   sent=sent, timed_out=timed_out, cmd=cmd, private=private)
         junit = os.path.join(PUPPET, "target", "nextest")
         res["junit_dir"] = junit
         if not keep:
